@@ -79,3 +79,7 @@ mod tests {
         assert_eq!(encode(&substitution_matrix), [0x63, 0x4b, 0x87, 0x27, 0x1b]);
     }
 }
+
+#[cfg(kani)]
+#[path = "/verif/harness/cram/writer_substitution_matrix.rs"]
+pub(crate) mod verif_kani;
